@@ -71,13 +71,13 @@ Fixpoint print_el (t : el) : str :=
   end.
 
 (* ------------------------------------------------------------------ path lookup *)
-(* components of a '/'-separated path (never the empty list) *)
-Fixpoint split_slash (s : str) : list str :=
+(* components of a path separated by the delimiter d (never the empty list) *)
+Fixpoint split_on (d : byte) (s : str) : list str :=
   match s with
   | [] => [[]]
   | c :: r =>
-    if c =? 47 then [] :: split_slash r
-    else match split_slash r with
+    if c =? d then [] :: split_on d r
+    else match split_on d r with
          | h :: t => (c :: h) :: t
          | [] => [[c]]
          end
@@ -90,16 +90,31 @@ Fixpoint strip_root (s : str) : bool * str :=
   | _ => (false, s)
   end.
 
-(* the optional attribute test: the element has attribute k with value v *)
-Definition attr_ok (q : option (str * str)) (t : el) : bool :=
+(* the attribute filter, in force when a name AND a value are given: the element has an attribute of
+   that name whose value EQUALS the given value *)
+Definition attr_ok (q : filt) (t : el) : bool :=
   match q with
-  | None => true
-  | Some (k, v) => match assoc k (el_attrs t) with Some v' => str_eqb v' v | None => false end
+  | (Some k, Some v) => match assoc k (el_attrs t) with Some v' => str_eqb v' v | None => false end
+  | _ => true
+  end.
+
+(* the elements the components designate, with their addresses (document order), before any filter:
+   the first component names the element itself, each further one a child *)
+Fixpoint reach_el (comps : list str) (t : el) (a : addr) : list (addr * el) :=
+  match comps with
+  | [] => []
+  | c :: rest =>
+    if str_eqb c (el_tag t) then
+      match rest with
+      | [] => [(a, t)]
+      | _ => List.concat (mapi_from 0 (fun i k => reach_el rest k (a ++ [i])) (el_kids t))
+      end
+    else []
   end.
 
 (* addresses (document order) of the elements designated by the components: the first names the
    element itself, each further one a child *)
-Fixpoint reach (comps : list str) (q : option (str * str)) (t : el) (a : addr) : list addr :=
+Fixpoint reach (comps : list str) (q : filt) (t : el) (a : addr) : list addr :=
   match comps with
   | [] => []
   | c :: rest =>
@@ -111,21 +126,29 @@ Fixpoint reach (comps : list str) (q : option (str * str)) (t : el) (a : addr) :
     else []
   end.
 
-(* tags as the parser produces them for live elements: not empty; and without the path separator *)
-Fixpoint find_tags_ok (t : el) : bool :=
+(* tags as the parser produces them for live elements (not empty), without the path delimiter d and
+   not beginning with the root marker "//" (implied when d is '/') *)
+Fixpoint find_tags_ok (d : byte) (t : el) : bool :=
   match t with
-  | El tag _ _ _ kids => negb (is_empty tag) && negb (mem_byte 47 tag) && forallb find_tags_ok kids
+  | El tag _ _ _ kids =>
+    negb (is_empty tag) && negb (mem_byte d tag) && negb (starts_with [47; 47] tag)
+    && forallb (find_tags_ok d) kids
   end.
 
-Definition reach_path (root cur : el) (a : addr) (path : str) (q : option (str * str)) : list addr :=
+Definition reach_path (root cur : el) (a : addr) (path : str) (d : byte) (q : filt) : list addr :=
   let (rooted, p) := strip_root path in
-  if rooted then reach (split_slash p) q root [] else reach (split_slash p) q cur a.
+  if rooted then reach (split_on d p) q root [] else reach (split_on d p) q cur a.
+
+(* the same before the attribute filter, with the elements *)
+Definition reach_path_el (root cur : el) (a : addr) (path : str) (d : byte) : list (addr * el) :=
+  let (rooted, p) := strip_root path in
+  if rooted then reach_el (split_on d p) root [] else reach_el (split_on d p) cur a.
 
 Definition spec_answer (root : el) (qy : query) : str :=
   match subtree_at root (q_start qy) with
   | None => s_noelem
   | Some cur =>
-    let l := reach_path root cur (q_start qy) (q_path qy) (q_attr qy) in
+    let l := reach_path root cur (q_start qy) (q_path qy) (q_delim qy) (q_attr qy) in
     if q_first qy then match l with a :: _ => render_addr a | [] => s_none end
     else render_answer l
   end.
